@@ -207,7 +207,11 @@ class PointPair
         Point      centerPoint;
 };
 
-typedef std::set<PointPair > VertSet;
+// A multiset: two vertices at the same position with the same VertID (two 
+// connection pins of one shape all share one VertID, as do connector 
+// endpoints) compare as equivalent and must not be dropped, otherwise one 
+// of them never gets a visibility edge from the point being swept around.
+typedef std::multiset<PointPair > VertSet;
 
 
 class EdgePair
